@@ -96,6 +96,8 @@ def run(ctx):
               "FormFactor is not sum a_i exp(-b_i s^2) + c over the row of the requested element: %s" % N.short(got, 300),
               core.loc(sm, fn), sample={"function": "structure.FormFactor", "normal_form": N.short(got, 300)})
     ctx.assumptions += ["atomic numbers of the 94 symbols H..Pu", "math.exp in the checker"]
+    from xfabsa import numeric as _NH
+    _NH.hazard_rule(ctx, 'C16')
     return ("All 94 rows of atomlib.formfactor extracted from the source and decided by arithmetic on the literals: "
             "f(0) = Z within 0.1, monotone decrease from the signs of a_i*b_i, positivity on [0,2] from f(2) > 0; "
             "structure.FormFactor compared with the nine-coefficient formula by E3.")
